@@ -77,11 +77,11 @@ Fixpoint result_sann (S : schema) (t : gtype) (nl : bool) : sann :=
   | TNonNull t' => result_sann S t' false
   end.
 
-(* input_fields.parse_input_field_type: a list hands ITS OWN flag to the items (F21) *)
+(* input_fields.parse_input_field_type: list items start nullable (since /repo 1ef155d; F21 before) *)
 Fixpoint input_sann (S : schema) (t : gtype) (nl : bool) : sann :=
   match t with
   | TNamed n => wrap_opt nl (input_leaf S n)
-  | TList t' => wrap_opt nl (SList (input_sann S t' nl))
+  | TList t' => wrap_opt nl (SList (input_sann S t' true))
   | TNonNull t' => input_sann S t' false
   end.
 
